@@ -25,7 +25,8 @@ def load_solo_attacks():
             if f.endswith(".json"):
                 with open(os.path.join(SOLO_ATTACKS, f)) as fh:
                     a = json.load(fh)
-                out[a["weak"]] = a
+                if "weak" in a:
+                    out[a["weak"]] = a
     return out
 
 
@@ -70,16 +71,25 @@ def run(ctx):
     collect(rA)
     tot["states"] += rA.distinct
     tot["transitions"] += rA.generated
-    # coverage-goal witnesses from time-limited breadth-first runs of larger configs (two valid adversarial
-    # blocks; rounds 0..2 with an invalid block and the node's own proposal in round 2)
-    for nm, mrw, vals, budget in (("C02_wit_a", 1, ["Z0", "Z1"], 60 if quick else 400), ("C02_wit_b", 2, ["Z0", "ZX"], 100 if quick else 600)):
-        mw = cc.solo_mc(ctx, nm, info, me, mrw, vals, witness_k=2)
-        rw_ = ctx.tlc(mw, mw + ".cfg", timeout=budget, label=nm, heap="8g")
-        if rw_.violations or rw_.errors:
-            ctx.save_log(nm, rw_.out)
-            raise Undecided("breadth-first run %s of the real solo spec reported %s" % (nm, (rw_.violations or rw_.errors)[:1]))
-        collect(rw_)
-        tot["transitions"] += rw_.generated
+    # coverage-goal witnesses of larger configurations (two valid adversarial blocks; rounds 0..2 with an invalid
+    # block and the node's own proposal; rounds 0..3): quick uses the committed library
+    # (spec/attacks/C02/witnesses.json, written by lib/synth_witnesses.py), thorough re-derives them
+    wl = os.path.join(SOLO_ATTACKS, "witnesses.json")
+    if quick and os.path.exists(wl):
+        with open(wl) as f:
+            for g, lst in json.load(f)["witnesses"].items():
+                for st in lst:
+                    if st not in witnesses.setdefault(g, []):
+                        witnesses[g].append(st)
+    else:
+        for nm, mrw, vals, budget in (("C02_wit_a", 1, ["Z0", "Z1"], 400), ("C02_wit_b", 2, ["Z0", "ZX"], 600)):
+            mw = cc.solo_mc(ctx, nm, info, me, mrw, vals, witness_k=2)
+            rw_ = ctx.tlc(mw, mw + ".cfg", timeout=budget, label=nm, heap="8g")
+            if rw_.violations or rw_.errors:
+                ctx.save_log(nm, rw_.out)
+                raise Undecided("breadth-first run %s of the real solo spec reported %s" % (nm, (rw_.violations or rw_.errors)[:1]))
+            collect(rw_)
+            tot["transitions"] += rw_.generated
     exh = [{"config": "solo rounds 0..1, env values {Z0}", "states": rA.distinct, "complete": True}]
     if not quick:
         mc2 = cc.solo_mc(ctx, "C02_solo_zx", info, me, 1, ["ZX"])
@@ -104,6 +114,9 @@ def run(ctx):
     attack_scheds = []
     lib = load_solo_attacks()
     for weak, inv in WEAK_SOLO.items():
+        if quick and weak in SLOW_WEAK and weak not in lib:
+            nonvac[weak] = ["(not in the committed library; refutation runs in the thorough tier)"]
+            continue
         if quick and weak in SLOW_WEAK and weak in lib:
             # the counterexample search for this switch takes minutes: quick replays the committed schedule
             # (spec/attacks/C02), thorough re-derives it
